@@ -18,7 +18,6 @@ correspond: all Variant-Ids and Build-Ids of configuration A and of the golden p
 """
 import json
 import os
-import random
 import shutil
 import subprocess
 import sys
@@ -97,37 +96,42 @@ def _write_config(ctx, base, P, cfg, rng):
 
 
 def _evaluate_projects(ctx, plan, tag, deadline_left):
-    """returns [{'project': json, 'edits': [...], 'results': {cfg: result}}]"""
+    """returns [{'project': json, 'edits': [...], 'results': {cfg: result}}].
+    One interpreter per (hash seed, chunk of jobs): the jobs of several projects share a process, so that the
+    interpreter start-up is paid once per chunk."""
     import multiprocessing.pool
-    items, index = [], []
     recs = []
+    by_seed = {0: [], 1: [], 2: []}
+    rng0 = ctx.subrng("cfg", tag)
     for pi, (P, edits) in enumerate(plan):
         rng = ctx.subrng("cfg", tag, pi)
         base = os.path.join(ctx.tmp, "%s-%d" % (tag, pi))
-        rec = {"project": P.to_json(), "uses_query": sorted(P.uses_sandbox_query), "edits": [e for e, _ in edits], "results": {}}
+        rec = {"project": P.to_json(), "uses_query": sorted(P.uses_sandbox_query), "edits": [e for e, _ in edits],
+               "edited": [Q.to_json() for _, Q in edits], "results": {}}
         recs.append(rec)
-        by_seed = {0: [], 1: [], 2: []}
         for cfg in CONFIGS:
             root, sb = _write_config(ctx, base, P, cfg, rng)
             seed = {"A": 0, "B": 1, "C": 2, "D": 0}[cfg]
-            by_seed[seed].append((cfg, {"root": root, "sandbox": sb, "out": os.path.join(base, "out-%s.json" % cfg), "cap": 300,
-                                        "bids": cfg in ("A", "B", "C"), "project": None}))
+            by_seed[seed].append((pi, cfg, {"root": root, "sandbox": sb, "out": os.path.join(base, "out-%s.json" % cfg), "cap": 300,
+                                            "bids": cfg in ("A", "B", "C"), "project": None}))
         for k, (e, Q) in enumerate(edits):
             cfg = "E%d" % k
             root, sb = _write_config(ctx, base, Q, cfg, rng)
-            by_seed[k % 3].append((cfg, {"root": root, "sandbox": False, "out": os.path.join(base, "out-%s.json" % cfg), "cap": 300,
-                                         "bids": True, "project": None}))
-        for seed, lst in by_seed.items():
-            if not lst:
-                continue
-            hs = {0: 0, 1: 1, 2: rng.randrange(2, 2 ** 32)}[seed]
-            extra = {} if seed == 0 else {"HOME": os.path.join(base, "home%d" % seed), "LANG": "C", "TZ": "Asia/Tokyo"}
-            items.append(([j for _, j in lst], hs, extra, max(15, min(90, ctx.time_left() - 20))))
-            index.append((pi, [c for c, _ in lst]))
-    pool = multiprocessing.pool.ThreadPool(min(12, os.cpu_count() or 4))
+            by_seed[(pi + k) % 3].append((pi, cfg, {"root": root, "sandbox": False, "out": os.path.join(base, "out-%s.json" % cfg),
+                                                    "cap": 300, "bids": True, "project": None}))
+    items, index = [], []
+    chunk = 12
+    for seed, lst in by_seed.items():
+        for off in range(0, len(lst), chunk):
+            part = lst[off:off + chunk]
+            hs = {0: 0, 1: 1, 2: rng0.randrange(2, 2 ** 32)}[seed]
+            extra = {} if seed == 0 else {"HOME": os.path.join(ctx.tmp, "home%d" % seed), "LANG": "C", "TZ": "Asia/Tokyo"}
+            items.append(([j for _, _, j in part], hs, extra, max(20, min(120, ctx.time_left() - 15))))
+            index.append([(pi, c) for pi, c, _ in part])
+    pool = multiprocessing.pool.ThreadPool(min(12, os.cpu_count() or 4, max(1, len(items))))
     try:
-        for (pi, cfgs), res in zip(index, pool.imap(_run_jobs, items)):
-            for c, r in zip(cfgs, res):
+        for idx, res in zip(index, pool.imap(_run_jobs, items)):
+            for (pi, c), r in zip(idx, res):
                 recs[pi]["results"][c] = r
             if ctx.time_left() < deadline_left:
                 break
@@ -204,8 +208,8 @@ def check_project(ctx, rec, report=True):
             if c.startswith("E"):
                 e = rec["edits"][int(c[1:])]
                 viol("%s of %s changes with the id-irrelevant edit %s of %s" % (what, bad[:3], e["kind"], e["target"]),
-                     {"kind": "edit", "project": rec["project"], "edit_index": int(c[1:]), "edits": rec["edits"], "cfg": c,
-                      "edited": None}, "id-depends-on-" + e["kind"])
+                     {"kind": "edit", "project": rec["project"], "edit": e, "edited": rec["edited"][int(c[1:])]},
+                     "id-depends-on-" + e["kind"])
             else:
                 viol("%s of %s differs between configuration A and %s (path / file creation order / hash seed / timestamps / environment)"
                      % (what, bad[:3], c), {"kind": "config", "project": rec["project"], "cfg": c},
@@ -322,15 +326,15 @@ def golden(ctx, report=True):
 def oracle(ctx):
     golden(ctx)
     ctx.notes["golden"] = "test on 5 recorded reference dumps (labelled: a test, not a proof)"
-    n = ctx.scale(40, 400)
+    n = ctx.scale(48, 480)
     nedits = ctx.scale(3, 5)
     t0 = ctx.time_left()
     recs = []
-    batch = 8
+    batch = 12
     done = 0
-    while done < n and ctx.time_left() > t0 * 0.35:
+    while done < n and (done == 0 or ctx.time_left() > t0 * 0.4):
         plan = _plan_range(ctx, done, min(n, done + batch), nedits)
-        part = _evaluate_projects(ctx, plan, "p%d" % done, t0 * 0.3)
+        part = _evaluate_projects(ctx, plan, "p%d" % done, t0 * 0.25 if done else 10)
         for rec in part:
             check_project(ctx, rec)
         recs.extend(part)
@@ -425,16 +429,7 @@ def replay(ctx, case):
     P = G.Project.from_json(case["project"])
     edits = []
     if k == "edit":
-        # re-create the edit deterministically is not possible without the generator state: the edited project is
-        # reproduced from the recorded edit list by replaying the irrelevant-edit makers until the same edit appears
-        for seed in range(2000):
-            rng = random.Random(seed)
-            Q = P.copy()
-            e = rng.choice(G.IRRELEVANT_EDITS)(Q, rng)
-            want = case["edits"][case["edit_index"]]
-            if e is not None and e.kind == want["kind"] and e.target == want["target"]:
-                edits = [(e.as_dict(), Q)]
-                break
+        edits = [(case["edit"], G.Project.from_json(case["edited"]))]
     rec = _evaluate_projects(ctx, [(P, edits)], "replay", -1)[0]
     for what, c, sig in check_project(ctx, rec, report=False):
         ctx.violation(what, c, sig)
